@@ -16,7 +16,7 @@ func init() {
 		const mp = "app/core/hydra/swamp/chronicler/v2/migrator/migrator.go"
 		const cp = "app/core/hydra/swamp/chronicler/chronicler.go"
 		names := []string{"dedupeLast", "writeBeforeDelete", "verifyBeforeDelete", "removeOnVerifyFail", "removeOnWriteFail", "removeOnOpenFail",
-			"emptyKeyIsError", "verifyValues", "skipsZeroLength", "nameFromMeta", "v1LoadIteratesMap"}
+			"emptyKeyIsError", "metaErrorAborts", "verifyValues", "skipsZeroLength", "nameFromMeta", "v1LoadIteratesMap"}
 		set := map[string]bool{}
 		put := func(n string, t Tri, where string) { fs.Tri(n, t, where); set[n] = true }
 		defer func() {
@@ -85,6 +85,36 @@ func init() {
 				})
 				if returns {
 					put("removeOnVerifyFail", TriOf(found), at(vfIf))
+				}
+			}
+			// `swampName, err := m.loadSwampNameFromMeta(folderPath)`: does the error branch leave the function
+			// (for anything but a missing meta file), or does it only log?
+			for i, st := range fd.Body.List {
+				as, ok := st.(*ast.AssignStmt)
+				if !ok || !f.Contains(as, "m.loadSwampNameFromMeta(") || i+1 >= len(fd.Body.List) {
+					continue
+				}
+				ifs, ok := fd.Body.List[i+1].(*ast.IfStmt)
+				if !ok || f.Str(ifs.Cond) != "err != nil" {
+					break
+				}
+				aborts := false
+				ast.Inspect(ifs.Body, func(n ast.Node) bool {
+					if inner, ok := n.(*ast.IfStmt); ok && strings.Contains(f.Str(inner.Cond), "os.ErrNotExist") && strings.HasPrefix(f.Str(inner.Cond), "!") {
+						if k := len(inner.Body.List); k > 0 {
+							if _, ok := inner.Body.List[k-1].(*ast.ReturnStmt); ok && len(f.Calls(inner.Body, "m.recordFailure")) == 1 {
+								aborts = true
+							}
+						}
+					}
+					return true
+				})
+				onlyLogs := len(ifs.Body.List) == 1 && f.Contains(ifs.Body.List[0], "slog.Warn(")
+				switch {
+				case aborts:
+					put("metaErrorAborts", Yes, at(ifs))
+				case onlyLogs:
+					put("metaErrorAborts", No, at(ifs))
 				}
 			}
 			// the name handed to writeV2File: the variable assigned from loadSwampNameFromMeta
